@@ -17,7 +17,15 @@ int __CPROVER_file_local_lang_c_lang_search(const polyseed_lang* lang, const cha
 struct in_t2_search { bool sorted, has_zero; unsigned p; unsigned signs; bool has_prefix, has_accents, compose; };
 static struct in_t2_search G;
 static polyseed_lang L;
-static const char* const KEY = "k";
+/* a long key: the search may hand the comparator the key itself or a copy of it,
+ * but it must be the whole key */
+static const char KEYTEXT[] = "key-0123456789-abcdefghijklmnopqrstuvwxyz-0123456789-ABCDEFGHIJKLMNOPQRSTUVWXYZ-0123456789-end";
+static const char* const KEY = KEYTEXT;
+static bool same_text(const char* a, const char* b) {
+    unsigned i = 0;
+    while (a[i] != '\0' && a[i] == b[i]) i++;
+    return a[i] == b[i];
+}
 static int S_calls, S_bad;
 
 static int stub_cmp(const void* a, const void* b) {
@@ -25,7 +33,7 @@ static int stub_cmp(const void* a, const void* b) {
 #if !defined(SORTED) || SORTED
     /* bookkeeping only where it is cheap (binary search: <= 12 calls) */
     S_calls++;
-    if (*(const char* const*)a != KEY) S_bad++;            /* key handed through */
+    if (!same_text(*(const char* const*)a, KEY)) S_bad++;  /* the (whole) key handed through */
     if (j < 0 || j >= NENT) { S_bad++; return 0; }
 #endif
     if (G.sorted) {
